@@ -88,7 +88,7 @@ REACH = ["introductions_judged", "puncture_request_observed", "puncture_dropped_
          "lan_delivery_inside_nat", "new_style_exchange", "old_style_exchange", "unroutable_lan_attempt",
          "hole_punch_needed_and_worked", "same_nat_pair_over_lan", "randomwalk_steps", "retry_clean_round",
          "retry_lossy_round", "candidate_restarted_on_other_port", "pair:none/none/public", "pair:port/port/different", "pair:addr/port/different",
-         "pair:port/port/same"]
+         "pair:port/port/same", "first_puncture_request_lost", "introduced_again_after_failed_attempt"]
 
 KINDS = ("none", "full", "addr", "port")
 ZERO = ("0.0.0.0", 0)  # noqa: S104
@@ -115,7 +115,7 @@ def grid():  # noqa: ANN201
 
 DEFAULT_OPTS = {"order": "a_last", "gap": 0.3, "ports": "same", "nat_ports": "default", "lan": "10",
                 "endpoint": "auto", "c_shared": False, "mixed": False, "mixed_style": False, "reset_chance": 0,
-                "concurrent": False, "rounds": 1, "restart": False, "lan_overlap": False}
+                "concurrent": False, "rounds": 1, "restart": False, "lan_overlap": False, "drop_preq": 0}
 
 
 def _case(scn, cell, n, seed, knobs=None, **opts) -> dict:  # noqa: ANN001, ANN003
@@ -149,6 +149,11 @@ def seeded(cell, seed: int, tier: str, lossy: bool) -> dict:  # noqa: ANN001
             "rounds": 1,
             "restart": rng.random() < 0.25,
             "lan_overlap": rng.random() < 0.3}
+    if rng.random() < 0.15 and not lossy:
+        opts["rounds"] = 2
+        opts["drop_preq"] = 1
+        opts["restart"] = False
+        n = 1          # (with one candidate B is certain to introduce the same peer again)
     scn = "intro"
     if lossy:
         scn = "retry"
@@ -174,6 +179,10 @@ def cases(tier: str, base_seed: int):  # noqa: ANN201
         if cell[2] == "different" and cell[1] != "none" and cell[0] != "none":
             s += 1
             yield _case("intro", cell, 2, s, lan_overlap=True)
+    for cell in cells:                       # the first puncture-request is lost; the walker gives the address up; B introduces it again
+        if cell[2] == "different" and cell[1] in ("addr", "port"):
+            s += 1
+            yield _case("intro", cell, 1, s, rounds=2, drop_preq=1)
     for cell in cells:                       # plain grid under loss with retries
         s += 1
         yield _case("retry", cell, 2, s, {"loss": 0.1}, rounds=4)
@@ -421,6 +430,18 @@ def execute(case: dict) -> dict:  # noqa: C901, PLR0912, PLR0915
     net.on_send.append(on_send)
     net.on_deliver.append(on_deliver)
 
+    def drop_first_puncture_requests(pkt):  # noqa: ANN001, ANN202
+        # targeted loss: the puncture-requests B sends for A's introductions of the first round never arrive, so the requester's first attempt at a restricted NAT dies there
+        req = sent.get(pkt.cause)
+        if state["round"] == 0 and pkt.src_node == "B" and len(pkt.data) > 22 and pkt.data[22] in PREQ_IDS and not pkt.injected \
+                and req is not None and req.src_node == "A":
+            world.fault("targeted_drop")
+            world.probe("first_puncture_request_lost")
+            return "drop"
+        return None
+    if o.get("drop_preq"):
+        net.filters.append(drop_first_puncture_requests)
+
     fns = (SimNet._deliver, SimNet._hand_over)  # noqa: SLF001
 
     def in_flight() -> bool:
@@ -594,14 +615,33 @@ def execute(case: dict) -> dict:  # noqa: C901, PLR0912, PLR0915
                 await attempts_walk_to(others)
                 world.probe("retry_lossy_round" if lost_in_round.get(r) else "retry_clean_round")
         else:
-            await attempts_randomwalk(requesters(t))
+            # (with the targeted loss of puncture-requests only A walks: a candidate that walks back to A on its own would connect the
+            #  pair from the other side and hide whether A's own next attempt works)
+            only_a = bool(o.get("drop_preq"))
+            await attempts_randomwalk(["A"] if only_a else requesters(t))
             # introductions handed out meanwhile (walker went back to B): their requesters attempt as well
-            for _ in range(3):
+            for _ in range(0 if only_a else 3):
                 more = [n for n in requesters(t) if available(t.nodes[n])]
                 if not more:
                     break
                 await attempts_randomwalk(more)
+            for r in range(1, int(o["rounds"])):
+                # the failed attempts have timed out at the walkers (their addresses are forgotten); A asks B again and is introduced
+                # to the same peers once more
+                await asyncio.sleep(4.0)
+                for n in (["A"] if only_a else requesters(t)):
+                    if n in walkers:
+                        t.nodes[n].call(walkers[n].take_step)       # (expires what timed out)
+                await quiesce()
+                state["round"] = r
+                for _k in range(max(1, case["n_candidates"])):
+                    ask(t.nodes["A"], b.address)
+                    await quiesce()
+                world.probe("introduced_again_after_failed_attempt")
+                await attempts_randomwalk(["A"] if only_a else requesters(t))
         await quiesce()
+        if TRACE_ALL:
+            print(trace(set(t.nodes)).replace("; ", "\n"))
         judge(t)
         for node in t.nodes.values():
             await node.stop()
@@ -730,6 +770,9 @@ def execute(case: dict) -> dict:  # noqa: C901, PLR0912, PLR0915
                        and lo <= p.t < hi for p in sent.values())
 
         for (r_name, i_name), events in pairs.items():
+            if o.get("drop_preq") and r_name != "A":
+                world.probe("requester_does_not_walk_in_this_configuration_not_judged")
+                continue
             # ---- (2) mutual reachability
             rn, inn = t.nodes[r_name], t.nodes[i_name]
             place = t.placement(r_name, i_name)
